@@ -228,7 +228,7 @@ def statements(M, a, b, partner, in_loop=False, depth=0, parent=0, out=None, cou
             return b
         start = p
         m = re.compile(r"(if\s+constexpr|if|for|while|switch|do|else|try)\b").match(M, p)
-        m_label = re.compile(r"(case\b[^;{}]*?|default\s*):(?!:)").match(M, p)
+        m_label = re.compile(r"(case\b[^;{}]*?|default\s*)(?<!:):(?!:)").match(M, p)
         if M[p] == "{" and p in partner:
             statements(M, p + 1, partner[p], partner, loop, depth + 1, blk, out, counter)
             end, kind = partner[p] + 1, "block"
@@ -447,6 +447,8 @@ def mutants_code(S, M, a, b, partner, single_statement=False, site=False):
         ls = S.rfind("\n", 0, p) + 1
         return re.match(r"[ \t]*", S[ls:p] if S[ls:p].strip() == "" else S[ls:]).group(0)
 
+    noop = re.compile(r"\s*\[\[\s*\w+\s*\]\]\s*;\s*$")         # `[[fallthrough]];` does nothing: deleting / moving it is an equivalent mutant
+    stmts = [s for s in stmts if not noop.match(M[s["start"]:s["end"]])]
     simple = [s for s in stmts if s["kind"] == "simple"]
     body = [s for s in stmts if s["kind"] in ("simple", "ctrl", "fndef")]
     is_void = not re.search(r"\breturn\s+[^;]", M[a:b])
